@@ -155,7 +155,7 @@ class Rig:
         t_end = time.monotonic()
         res = dict(rc=p.returncode, stdout=out.decode(errors="replace"), stderr=err.decode(errors="replace"),
                    tap=read_jsonl(tap), log=read_jsonl(logp), wall=t_end - t0, dir=d, t0=t0, t_end=t_end,
-                   sent=sent, timed_out=timed_out, cmd=cmd, private=private)
+                   sent=sent, timed_out=timed_out, cmd=cmd, private=private, stderr_bytes=err, stdout_bytes=out)
         junit = os.path.join(PUPPET, "target", "nextest")
         res["junit_dir"] = junit
         if not keep:
